@@ -147,6 +147,9 @@ def check(ctx):
         ctx.ob('R3', fo, 'counts / frames', None, 'normalisation of the state counts not recognised')
     else:
         n, l, rr = div
+        if l.positional_slice:
+            ctx.ob('R3', fo, n.left, False, 'a fixed number of leading entries of the np.unique output is discarded: which state that is depends '
+                                            'on the data (the NOSITE entry exists only when some atom is off-site), so a real site can lose its occupancy')
         m = rr.mono if rr is not None else None
         ok = m is not None and set(m.atoms) == {'n_frame'} and rr.lenof is not None
         if rr is not None and rr.sizeof is not None:
@@ -171,6 +174,19 @@ def check(ctx):
                'summed site occupancies divided by the number of diffusing atoms' if ok else f'divided by {rt}')
     # label counter
     fc = ctx.fn(f'{JU}.counter')
+    n_acc = 0
+    for n in ast.walk(fc.node):
+        if isinstance(n, ast.DictComp) and 'labels[' in norm_text(n.key):
+            n_acc += 1
+            ctx.ob('R3', fc, n, False, 'label pairs are not unique per index pair (several sites share a label): a dict comprehension keeps only '
+                                       'the last index pair of every label pair instead of adding the counts up')
+        if isinstance(n, ast.Assign) and len(n.targets) == 1 and isinstance(n.targets[0], ast.Subscript) and 'labels[' in norm_text(n.targets[0].slice):
+            n_acc += 1
+            ctx.ob('R3', fc, n, False, 'counts of index pairs that share a label pair overwrite each other instead of adding up')
+        if isinstance(n, ast.AugAssign) and isinstance(n.target, ast.Subscript) and 'labels[' in norm_text(n.target.slice):
+            n_acc += 1
+    if n_acc == 0:
+        ctx.ob('R3', fc, 'label counter', None, 'aggregation of the index counter by labels not recognised')
     for n in ast.walk(fc.node):
         if isinstance(n, ast.For) and isinstance(n.target, ast.Tuple):
             tgt = norm_text(n.target)
